@@ -25,6 +25,8 @@ func main() {
 	list := flag.Bool("list", false, "list all obligations")
 	sites := flag.String("sites", "", "development: pkgs:callees, print site table rows")
 	panics := flag.String("panics", "", "development: root function, print panic sites in its closure")
+	guarded := flag.String("guarded", "", "development: pkg,pkg: print fields mostly accessed under the struct's mutex and their unlocked accesses")
+	nilsweep := flag.String("nilsweep", "", "development: pkg,pkg: print dereferences of unchecked may-return-nil lookups")
 	flag.Parse()
 
 	vd := *verif
@@ -88,6 +90,14 @@ func main() {
 	ctx.P = prog
 	if *sites != "" {
 		props.DumpSites(prog, *sites)
+		return
+	}
+	if *guarded != "" {
+		props.DumpGuarded(prog, *guarded)
+		return
+	}
+	if *nilsweep != "" {
+		props.DumpNilLookups(prog, *nilsweep)
 		return
 	}
 	if *panics != "" {
